@@ -64,6 +64,11 @@ unsafe impl GlobalAlloc for Track {
             if FAIL_AT > 0 { FAIL_AT -= 1; }
         }
         let p = System.alloc(l);
+        if recording() && !p.is_null() {
+            // fresh memory is POISONED while a library call is being recorded: a read (or a destructor run) on a slot that was
+            // never written sees 0xA5.. instead of whatever the system allocator left there
+            std::ptr::write_bytes(p, 0xA5, l.size());
+        }
         if recording() && NREC < MAXB && !p.is_null() {
             RECS[NREC] = Rec { addr: p as usize, size: l.size(), align: l.align(), live: true, block: -1 };
             let i = NREC;
